@@ -17,10 +17,18 @@ CHECKS = {
   "runtime monitoring: order reference model over independently decoded commit DAGs, on produced and hand-crafted histories",
   "Every bug read in generated replica schedules, and every read/merge of hand-crafted commit DAGs (all small fork/merge shapes, clock assignments and single perturbations from the forbidden list), is compared with a reference model of the documented ordering and refusal rules; also across storage backends and merge-parent orders.",
   "Held on the enumerated shapes (<=5 commits exhaustively, 6 sampled) and executed schedules; trusts refmodel/order.go and the gitraw reader."),
+ "C06": ("fault_enumeration",
+  "runtime monitoring with fault injection: self-SIGKILL before every mutating storage call (decorator), strace SIGKILL at every traced syscall, torn clock files; fresh-process state oracle",
+  "For 15 write-path scenarios a dry run records the K mutating storage calls; every prefix is produced by killing the child process immediately before call k (exhaustive per scenario); thorough additionally kills at every mutating syscall position under strace and both tiers tear every clock file. A fresh process re-opens the repository with the clock loader, reads all entities and clocks; the monitor checks old-or-new per entity, clocks against stored times, and that repeating the action completes it.",
+  "Post state comes from an uninterrupted run on a copy; content signatures ignore nonces/timestamps. strace kill positions are per thread and not fully reproducible; open known findings are keyed by crash-site class."),
  "C07": ("exploration",
   "runtime monitoring: hostile-input catalogue and byte fuzz executed in child processes, crash and damage monitor over before/after views",
   "A hostile bare repository serves mutated bug and identity histories (catalogue of ~250 structural mutation kinds at every position, per-field type confusion discovered from the live operation encoding, seeded byte fuzz); each case does a real fetch+merge (entity API and cache API) or a local read in a child process; the monitor checks process survival, the reported status against the case's class and that every local ref and entity is unchanged.",
   "must-reject/may-accept classification is the harness's reading of the property; thorough children run under the race detector (reports are diagnostics only)."),
+ "C17": ("exploration",
+  "runtime monitoring: before/after repository snapshots around every generated GraphQL mutation / upload request, mutation list from schema introspection",
+  "An in-process handler assembled like the web UI serves a real repository; every mutation field found by introspection is sent with generated valid and invalid arguments with and without an authenticated user; the monitor compares refs, object files, stored operations (independent reader) and cache answers before and after, and the response with the modelled effect.",
+  "Modelled mutation table covers the 9 mutations of the pinned schema; unmodelled ones get the no-user check only. Dirty text inputs are only checked for kind/author, not payload equality."),
  "C20": ("exploration",
   "runtime monitoring: Relay reference-model oracle over executed pagination calls, page walks and GraphQL requests",
   "Every generated connection function is executed on all small inputs (lengths, page sizes, cursor positions incl. foreign and malformed; bounded part exhaustive) and each observable result is compared with a Relay reference model; forward/backward page walks and end-to-end GraphQL walks replay what a client does.",
